@@ -16,6 +16,9 @@ type GenCfg struct {
 	NoPersist  bool // allow persist=false where the API offers it
 	FlagFields bool // C04: let data / elements name the writecheck field
 	MaxLen     int
+	RejectPct  int // C02: percentage of updates that the engine must reject whatever the data is (a partial
+	// filter with a selector but no data item, alone or after a delete filter that has already
+	// run on the working copy)
 }
 
 // selectable: fields a selector can be compared with (kept non-nil in every generated item,
@@ -292,6 +295,11 @@ func (ti *TypeInfo) GenHistory(r *hx.Rng, cfg GenCfg) []hx.Zs {
 		var items [][]int64
 		var fp, fd Filter
 		shape := r.Pick(20, 25, 8, 14, 7, 6, 6, 7, 5)
+		if cfg.RejectPct > 0 && len(h) > 1 && r.Intn(100) < cfg.RejectPct {
+			if sel, _ := ti.genSelector(r); sel != nil {
+				shape = 99
+			}
+		}
 		if len(h) == 1 && r.Chance(2, 3) {
 			shape = 0
 		}
@@ -341,6 +349,22 @@ func (ti *TypeInfo) GenHistory(r *hx.Rng, cfg GenCfg) []hx.Zs {
 			return l
 		}
 		switch shape {
+		case 99: // rejected whatever the data is: selector in the partial filter, no data item
+			sel, _ := ti.genSelector(r)
+			fp = Filter{Present: true, Sel: sel}
+			switch r.Intn(3) {
+			case 0: // after a delete filter naming elements (with or without selector) has run
+				if el := ti.genElems(r, cfg.FlagFields); el != nil {
+					fd = Filter{Present: true, Elems: el}
+					if r.Bool() {
+						fd.Sel, _ = ti.genSelector(r)
+					}
+				}
+			case 1: // after a delete filter with a selector has run
+				if s2, _ := ti.genSelector(r); s2 != nil {
+					fd = Filter{Present: true, Sel: s2}
+				}
+			}
 		case 0: // full
 			keys := ti.distinctKeys(r, r.Pick(1, 2, 3, 3, 2))
 			sort.SliceStable(keys, func(a, b int) bool { return keyLess(ti, keys[a], keys[b]) })
@@ -437,4 +461,74 @@ func (ti *TypeInfo) keyOf(it []int64) []int64 {
 		k[j] = it[i] - 1
 	}
 	return k
+}
+
+// GenOverlapHistory (C04): a long list (100..140 elements mixing changeable, unchangeable and flag-less
+// ones) set up locally through FeatureLocal (family 3), then `rounds` overlap operations: a remote
+// partial write with identifiers and a local partial update with identifiers, naming disjoint
+// identifiers, released together (World.overlap). Only for types with a single numeric identifier.
+func (ti *TypeInfo) GenOverlapHistory(r *hx.Rng, rounds int) []hx.Zs {
+	h := []hx.Zs{{0, int64(ti.Index), 0, 3}}
+	n := r.Range(100, 140)
+	var items [][]int64
+	for id := 1; id <= n; id++ {
+		it := ti.genItem(r, []int64{int64(id)}, 1, false, true)
+		for _, wc := range ti.WC { // mostly changeable, so that most writes are accepted
+			it[wc] = []int64{2, 2, 2, 2, 2, 2, 2, 2, 1, 0}[r.Intn(10)]
+		}
+		items = append(items, it)
+	}
+	h = append(h, ti.EncodeUpdate(0, 2, 0, items, Filter{}, Filter{}))
+	known := n
+	for i := 0; i < rounds; i++ {
+		used := map[int64]bool{}
+		pick := func(max int, allowNew bool) [][]int64 {
+			var l [][]int64
+			for c := r.Range(1, 3); c > 0; c-- {
+				id := int64(1 + r.Intn(max))
+				if allowNew && r.Chance(1, 6) {
+					id = int64(known + 1 + r.Intn(3))
+				}
+				if used[id] {
+					continue
+				}
+				used[id] = true
+				l = append(l, []int64{id})
+			}
+			return l
+		}
+		var wl, ll [][]int64
+		for _, k := range pick(known, r.Chance(1, 8)) { // a write naming an unknown identifier is rejected
+			wl = append(wl, ti.genItem(r, k, 2, true, false))
+		}
+		for _, k := range pick(known, true) {
+			it := ti.genItem(r, k, 3, true, false)
+			if int(k[0]) > known { // a new element: selectable fields set, like every stored element
+				it = ti.genItem(r, k, 1, false, true)
+			}
+			ll = append(ll, it)
+		}
+		if len(wl) == 0 || len(ll) == 0 {
+			continue
+		}
+		sortItems := func(l [][]int64) {
+			sort.SliceStable(l, func(a, b int) bool { return l[a][ti.Keys[0]] < l[b][ti.Keys[0]] })
+		}
+		sortItems(wl)
+		sortItems(ll)
+		for _, it := range ll {
+			if int(it[ti.Keys[0]]-1) > known {
+				known = int(it[ti.Keys[0]] - 1)
+			}
+		}
+		op := hx.Zs{3}
+		op = append(op, EncodeItems(wl, len(ti.Fields))...)
+		op = append(op, encFilter(Filter{Present: true})...)
+		op = append(op, encFilter(Filter{})...)
+		op = append(op, EncodeItems(ll, len(ti.Fields))...)
+		op = append(op, encFilter(Filter{Present: true})...)
+		op = append(op, encFilter(Filter{})...)
+		h = append(h, op)
+	}
+	return h
 }
